@@ -77,6 +77,9 @@ pub const POOL: &[PoolEntry] = &[
     pe!("(function_definition) @{d}", [("d", "function_definition")], Some("function_definition")),
     pe!("(expression_statement) @{s}", [("s", "expression_statement")], Some("expression_statement")),
     pe!("(argument_list) @{al}", [("al", "argument_list")], Some("argument_list")),
+    // one capture name on a node and on a descendant that starts at the same byte
+    pe!("(call function: (_) @{part}) @{part}", [("part", "*")], None),
+    pe!("(attribute object: (_) @{both} attribute: (_) @{both}) @{both}", [("both", "*")], None),
     // a root quantified with `+`: one match may hold several sibling roots
     pe!("(pass_statement)+ @{ps}", [("ps", "pass_statement")], None),
     pe!("(expression_statement)+ @{es}", [("es", "expression_statement")], None),
